@@ -70,7 +70,10 @@ def gate_cases() -> list[dict]:
             (None, NOW8 - 8, NOW8 + 12, NOW8 + 40)):
         if cause != 'present' and gone:
             continue
-        out.append(dict(cause=cause, gone=gone, must=must, blocked=blocked, ongoing=ongoing, ct=ct, pie=pie, low=low, press=press))
+        for sp in (None, [4], [16, 200]):      # re-check delays of daemons/timers being stopped (eighths); None: nothing to spawn/stop
+            if sp is not None and (cause != 'present' or must or low):
+                continue                        # keep the product small: the delays matter where the gate can wait
+            out.append(dict(cause=cause, gone=gone, must=must, blocked=blocked, ongoing=ongoing, ct=ct, pie=pie, low=low, press=press, sp=sp))
     return out
 
 
@@ -82,7 +85,8 @@ def run_gate_case(c: dict) -> dict:
     from kopf._core.intents import causes
     from kopf._core.reactor import processing
 
-    for name in ('_detect_causes', '_Causes', 'process_watching_cause', 'process_changing_cause', 'process_resource_causes', 'aiotime'):
+    for name in ('_detect_causes', '_Causes', 'process_watching_cause', 'process_changing_cause', 'process_spawning_cause',
+                 'process_resource_causes', 'aiotime'):
         if not hasattr(processing, name):
             raise qd.ObservationMissing(f'processing.{name}')
     settings = configuration.OperatorSettings()
@@ -101,8 +105,14 @@ def run_gate_case(c: dict) -> dict:
     changing = types.SimpleNamespace(reason=reason, patch=patch, body=body) if c['cause'] != 'none' else None
     watching = types.SimpleNamespace(patch=patch, body=body)
 
+    spawning = types.SimpleNamespace(patch=patch, body=body) if c.get('sp') is not None else None
+
     def detect(**kw: Any) -> Any:
-        return processing._Causes(watching, None, changing)
+        return processing._Causes(watching, spawning, changing)
+
+    async def spawning_stub(**kw: Any) -> list:
+        obs['spawn_at'] = loop.time()
+        return [d / 8 for d in c['sp']]
 
     async def watching_stub(**kw: Any) -> None:
         obs['low_at'] = loop.time()
@@ -129,7 +139,9 @@ def run_gate_case(c: dict) -> dict:
     saved = [(processing, '_detect_causes', processing._detect_causes),
              (processing, 'process_watching_cause', processing.process_watching_cause),
              (processing, 'process_changing_cause', processing.process_changing_cause),
+             (processing, 'process_spawning_cause', processing.process_spawning_cause),
              (aiotime, 'sleep', aiotime.sleep)]
+    processing.process_spawning_cause = spawning_stub
     processing._detect_causes = detect
     processing.process_watching_cause = watching_stub
     processing.process_changing_cause = changing_stub
@@ -173,7 +185,9 @@ def gate_term(c: dict, obs: dict) -> tuple[str, str]:
     exp = (f"({cq.cbool(obs['slept'])}, {cq.cZ(e8(obs['until']))}, {cq.cbool(obs['changing_at'] is not None)}, "
            f"{cq.cbool(obs['matched'])}, {cq.cnat(obs['nfns'])})")
     low = f"Z.eqb (gate_case_low {cq.cZ(NOW8)} {copt_z(c['ct'])} {copt_z(c['press'])}) {cq.cZ(e8(obs['low_at']))}"
-    return f'gate_obs_eqb (gate_case {args}) {exp} && {low}', f'(gate_case {args}, gate_case_low {cq.cZ(NOW8)} {copt_z(c["ct"])} {copt_z(c["press"])})'
+    sp = cq.clist(cq.cZ(d) for d in (c.get('sp') or []))
+    return (f'gate_obs_eqb (gate_case_sp {sp} {args}) {exp} && {low}',
+            f'(gate_case_sp {sp} {args}, gate_case_low {cq.cZ(NOW8)} {copt_z(c["ct"])} {copt_z(c["press"])})')
 
 
 def gate_monitor(c: dict, obs: dict, fail: Any) -> None:
@@ -467,6 +481,7 @@ class CycleDriver(qd.Driver):
         super().__init__(cfg)
         self.script = [tuple(x[:3]) for x in script]   # per processor call: (carried_patch, handler_patches, duration_eighths)
         self.cycle_extra = [tuple(x[3:5]) if len(x) >= 5 else (None, 0) for x in script]   # (handler delay, PATCH latency) in eighths
+        self.cycle_sp = [x[5] if len(x) >= 6 else None for x in script]   # re-check delay of a daemon/timer being stopped (eighths) or None
         self.writes: dict[int, list[tuple]] = collections.defaultdict(list)     # per uid: (version, response time, is_touch)
         self.last_write_by_uid: dict[int, tuple[str, float]] = {}
         self.runs_vs_writes: dict[int, list[tuple]] = collections.defaultdict(list)
@@ -501,7 +516,11 @@ class CycleDriver(qd.Driver):
 
         def detect(**kw: Any) -> Any:
             c = drv.ctx_by_uid[uid_of(kw['body'])]
-            return processing._Causes(None, None, c['cause'])
+            return processing._Causes(None, c['spawning'], c['cause'])
+
+        async def spawning_stub(**kw: Any) -> list:
+            c = drv.ctx_by_uid[uid_of(kw['cause'].body)]
+            return [c['sp8'] / 8]
 
         async def changing_stub(**kw: Any) -> list:
             c = drv.ctx_by_uid[uid_of(kw['cause'].body)]
@@ -510,6 +529,9 @@ class CycleDriver(qd.Driver):
 
         self._patch(processing, '_detect_causes', detect)
         self._patch(processing, 'process_changing_cause', changing_stub)
+        if not hasattr(processing, 'process_spawning_cause'):
+            raise qd.ObservationMissing('processing.process_spawning_cause')
+        self._patch(processing, 'process_spawning_cause', spawning_stub)
         from kopf._cogs.clients import patching
         from kopf._core.actions import application
         for name in ('apply', 'patch_and_check', 'patching'):
@@ -542,7 +564,9 @@ class CycleDriver(qd.Driver):
         body = self.bodies.Body(raw_event['object'])
         patch = self.patches.Patch({'status': {'carried': 1}} if carried else {})
         cause = types.SimpleNamespace(reason=self.causes.Reason.UPDATE, patch=patch, body=body)
-        ctx = {'cause': cause, 'ran_at': None}
+        sp8 = self.cycle_sp[(self.ncall - 1) % len(self.cycle_sp)] if self.cycle_sp else None
+        ctx = {'cause': cause, 'ran_at': None, 'sp8': sp8,
+               'spawning': types.SimpleNamespace(patch=patch, body=body) if sp8 is not None else None}
         self.ctx_by_uid[u] = ctx
         pressure_at_entry = bool(stream_pressure.is_set())
         registry = types.SimpleNamespace(
@@ -550,7 +574,7 @@ class CycleDriver(qd.Driver):
             _spawning=types.SimpleNamespace(requires_finalizer=lambda **kw: False))
         logger = types.SimpleNamespace(debug=lambda *a, **k: None, info=lambda *a, **k: None, warning=lambda *a, **k: None)
         memory = types.SimpleNamespace(daemons_memory=types.SimpleNamespace(forever_stopped=set()))
-        await self.processing.process_resource_causes(
+        ret_delays, _matched = await self.processing.process_resource_causes(
             lifecycle=None, indexers=types.SimpleNamespace(indices=None), registry=registry, settings=self.settings,
             resource=None, raw_event=raw_event, body=body, patch=patch, memory=memory, local_logger=logger,
             event_logger=logger, stream_pressure=stream_pressure, operator_paused=None, consistency_time=consistency_time)
@@ -568,7 +592,8 @@ class CycleDriver(qd.Driver):
         nreq0 = len(self.writes[u])
         applied, reported, _ = await self.application.apply(
             settings=self.settings, resource=self.resource, body=body, patch=patch,
-            delays=[delay8 / 8] if (ran and delay8 is not None) else [], logger=logger, stream_pressure=stream_pressure)
+            delays=list(ret_delays) + ([delay8 / 8] if (ran and delay8 is not None) else []), logger=logger,
+            stream_pressure=stream_pressure)
         sent = self.writes[u][nreq0:]
         patched = sent[-1][0] if sent else None          # the harness's truth: the last write observed at the fake API
         if reported != patched:
@@ -580,7 +605,7 @@ class CycleDriver(qd.Driver):
             # arrivals of this object recorded after the entry (the watcher sets the pressure on each of them)
             later = self.arrive_times[u][self._entry_counts[u]:]
             press = later[0] if later and later[0] <= end else None
-        self.steps_by_uid[u].append({'rv': rv, 'begin': begin, 'pie': not carried, 'press': press, 'patched': patched,
+        self.steps_by_uid[u].append({'sp8': sp8, 'rv': rv, 'begin': begin, 'pie': not carried, 'press': press, 'patched': patched,
                                      'end': end, 'ct': consistency_time, 'gate_left': gate_left})
         if ran:
             self.runs_by_uid[u].append((ctx['ran_at'], rv, self.last_by_uid.get(u)))
@@ -612,7 +637,10 @@ def cycle_scenarios(r: random.Random, nrandom: int) -> list[tuple[dict, list[tup
             if d is not None:
                 acts += [('W', max(1, total - (total // (nf + 1)) * nf)), ('S',), ('N', 0), ('S',)]
             acts += [('W', 100), ('S',), ('M', 0), ('N', 0), ('S',), ('N', 0), ('S',)]
-            for script in ([(False, True, 0)], [(False, True, 0), (False, False, 0)], [(False, True, 4), (True, False, 0), (False, False, 0)]):
+            for script in ([(False, True, 0)], [(False, True, 0), (False, False, 0)], [(False, True, 4), (True, False, 0), (False, False, 0)],
+                           # a daemon/timer of the object is being stopped: re-check delays shorter than the remaining wait
+                           [(False, True, 0, None, 0, None), (False, False, 0, None, 0, 4)],
+                           [(False, True, 0, None, 0, 2), (False, False, 0, None, 0, 6), (False, False, 0, None, 0, 200)]):
                 out.append((cfg, acts, script))
     # idle_timeout vs consistency timeout: a foreign edit made BEFORE the patch is delivered after idle_timeout of silence,
     # before the echo
@@ -657,7 +685,8 @@ def cycle_scenarios(r: random.Random, nrandom: int) -> list[tuple[dict, list[tup
                 acts.append(('S',))
         acts.append(('S',))
         script = [(r.random() < 0.15, r.random() < 0.6, r.choice([0, 0, 1, 3, 7]),
-                   r.choice([None, None, 0, 3, 5, 9]), r.choice([0, 0, 1, 3])) for _ in range(r.randrange(1, 6))]
+                   r.choice([None, None, 0, 3, 5, 9]), r.choice([0, 0, 1, 3]), r.choice([None, None, None, 2, 5, 40]))
+                  for _ in range(r.randrange(1, 6))]
         c = qd.Config(limit=None, indexed=False, nuids=2, idle=r.choice([5.0, 5.0, 1.0, 2.0]), exit_timeout=2.0,
                       ctimeout=r.choice([3.0, 3.0, 1.0, 0.0])).as_dict()
         out.append((c, acts, script))
@@ -735,6 +764,8 @@ def run_cycle_case(cfgd: dict, actions: list[tuple], script: list[tuple]) -> dic
         res['stats']['steps with barrier'] += sum(1 for s in steps if s['ct'] is not None)
         res['stats']['waits ended by pressure'] += sum(1 for s in steps if s['press'] is not None and s['ct'] is not None and s['gate_left'] < s['ct'] - 1e-9)
         res['stats']['carried patch'] += sum(1 for s in steps if not s['pie'])
+        res['stats']['steps with a daemon/timer re-check delay pending'] += sum(1 for s in steps if s.get('sp8') is not None)
+        res['stats']['... while the barrier is up'] += sum(1 for s in steps if s.get('sp8') is not None and s['ct'] is not None)
         res['stats']['PATCH requests via the real apply()'] += len(drv.writes.get(u, []))
         res['stats']['touch-dummy patches'] += sum(1 for w_ in drv.writes.get(u, []) if w_[2])
         if boundary:
@@ -997,6 +1028,7 @@ def run(ctx: fw.Ctx) -> int:
             D.append(fw.Case(term, {**data, 'observed': {k: v for k, v in obs.items() if k != 'sleep_args'}}, diag=diag))
             ctx.count('gate', 'handlers ran' if obs['changing_at'] is not None else 'handlers skipped')
             ctx.count('gate', 'slept' if obs['slept'] else 'no sleep')
+            ctx.count('gate_spawning_delays', 'none' if c.get('sp') is None else 'shorter than the wait' if min(c['sp']) < 24 else 'longer')
             if obs['slept']:
                 ctx.count('gate_sleep', 'woken by pressure' if obs['until'] * 8 < (c['ct'] or 0) - 1e-9 and obs['until'] * 8 > NOW8 - 1e-9 and obs['changing_at'] is None
                           else 'timed out / not needed')
